@@ -93,15 +93,19 @@ def run(c):
                      memoize=ev1.memo_value(w["memo"]))
     T = _T(c)
     ts = (lambda a, t: t < T) if c.get("dyn") else T
-    return cpl.evolve2d(ca, timesteps=ts, apply_rule=cpl.game_of_life_rule, r=1, neighbourhood="Moore",
-                        memoize=ev1.memo_value(c["memo"]))
+    # integer / unsigned / bool grids under a strict NumPy error state and warnings as errors (a third of the runs)
+    with ev1.strict_ctx(ca.dtype.kind in "iub" and (int(ca.sum()) + T) % 3 == 1):
+        return cpl.evolve2d(ca, timesteps=ts, apply_rule=cpl.game_of_life_rule, r=1, neighbourhood="Moore",
+                            memoize=ev1.memo_value(c["memo"]))
 
 
 def impl(c):
     import cellpylib as cpl
     try:
         if c["kind"] == "gol":
-            v = cpl.game_of_life_rule(np.array(c["n"], dtype=["int64", "uint8", "int8", "bool", "float64"][sum(map(sum, c["n"])) % 5]), (1, 1), 1)
+            dt = ["int64", "uint8", "int8", "bool", "float64", "uint16"][(sum(map(sum, c["n"])) + 2 * c["n"][1][1]) % 6]
+            with ev1.strict_ctx(dt != "float64" and (c["n"][0][0] + c["n"][2][2]) % 2 == 1):
+                v = cpl.game_of_life_rule(np.array(c["n"], dtype=dt), (1, 1), 1)
             return "ok None" if v is None else "ok %d" % int(v)
         return "ok grids=" + fmt.hist(np.asarray(run(c)).astype(np.int64).tolist())
     except Exception as e:  # noqa
